@@ -1,11 +1,18 @@
-// C01 / C02 / C03: BatchSpanProcessor (real batch_span_processor.cc) with a mock exporter. The worker thread is
-// never started; what it would do is run by the harness (directly, or from the hook that models/thread_cv.c calls
-// where the calling thread blocks).  Queue/atomics run sequentially here; their concurrent correctness is C11.
+// C01 / C02 / C03: BatchSpanProcessor (real batch_span_processor.cc) or, with -DLOGS, BatchLogRecordProcessor (real
+// batch_log_record_processor.cc) with a mock exporter. The worker thread is never started; what it would do is run by the
+// harness (directly, or from the hook that models/thread_cv.c calls where the calling thread blocks). While the worker is
+// inside the exporter (Export / ForceFlush) other threads may act: the mock exporter produces a record and issues a flush
+// ticket there, as a concurrent producer / ForceFlush caller would (symbolic choice). Queue/atomics run sequentially here; their
+// concurrent correctness is C11.
 #include "verif.h"
+#ifdef LOGS
+#include "sdk/src/logs/batch_log_record_processor.cc"
+#include "sdk/src/logs/exporter.cc"
+#else
 #include "sdk/src/trace/batch_span_processor.cc"
 #include "sdk/src/trace/exporter.cc"
+#endif
 using namespace opentelemetry;
-namespace sdkt = opentelemetry::sdk::trace;
 #ifndef QMAX
 #define QMAX 4
 #endif
@@ -15,7 +22,29 @@ namespace sdkt = opentelemetry::sdk::trace;
 #ifndef KITEMS
 #define KITEMS QMAX      // records produced before the operation under test (concrete per query: keeps sizes concrete)
 #endif
-struct TokRec : sdkt::Recordable {
+#define NLOG 12
+#ifdef LOGS
+namespace sdkx = opentelemetry::sdk::logs;
+typedef sdkx::BatchLogRecordProcessor PROC; typedef sdkx::BatchLogRecordProcessorOptions OPTS; typedef sdkx::LogRecordExporter EXPBASE;
+struct TokRec : sdkx::Recordable {
+  uint32_t id; explicit TokRec(uint32_t i) : id(i) {}
+  void SetTimestamp(common::SystemTimestamp) noexcept override {}
+  void SetObservedTimestamp(common::SystemTimestamp) noexcept override {}
+  void SetSeverity(opentelemetry::logs::Severity) noexcept override {}
+  void SetBody(const common::AttributeValue &) noexcept override {}
+  void SetAttribute(nostd::string_view, const common::AttributeValue &) noexcept override {}
+  void SetEventId(int64_t, nostd::string_view) noexcept override {}
+  void SetTraceId(const trace::TraceId &) noexcept override {}
+  void SetSpanId(const trace::SpanId &) noexcept override {}
+  void SetTraceFlags(const trace::TraceFlags &) noexcept override {}
+  void SetResource(const sdk::resource::Resource &) noexcept override {}
+  void SetInstrumentationScope(const sdk::instrumentationscope::InstrumentationScope &) noexcept override {}
+};
+#define PRODUCE(p, r) (p)->OnEmit(r)
+#else
+namespace sdkx = opentelemetry::sdk::trace;
+typedef sdkx::BatchSpanProcessor PROC; typedef sdkx::BatchSpanProcessorOptions OPTS; typedef sdkx::SpanExporter EXPBASE;
+struct TokRec : sdkx::Recordable {
   uint32_t id; explicit TokRec(uint32_t i) : id(i) {}
   void SetIdentity(const trace::SpanContext &, trace::SpanId) noexcept override {}
   void SetAttribute(nostd::string_view, const common::AttributeValue &) noexcept override {}
@@ -29,108 +58,169 @@ struct TokRec : sdkt::Recordable {
   void SetDuration(std::chrono::nanoseconds) noexcept override {}
   void SetInstrumentationScope(const sdk::instrumentationscope::InstrumentationScope &) noexcept override {}
 };
-// exporter log
-static uint32_t g_exported[12]; static int g_nexported; static int g_batches; static uint8_t g_batch_size[8];
-static int g_flush_calls, g_shutdown_calls; static int g_flush_after_exported;   // #exported when ForceFlush was last called
-static bool g_size_ok = true;
-struct Exp : sdkt::SpanExporter {
-  std::unique_ptr<sdkt::Recordable> MakeRecordable() noexcept override { return std::unique_ptr<sdkt::Recordable>(new TokRec(0)); }
-  sdk::common::ExportResult Export(const nostd::span<std::unique_ptr<sdkt::Recordable>> &spans) noexcept override {
-    if (g_batches < 8) g_batch_size[g_batches] = (uint8_t)spans.size();
+#define PRODUCE(p, r) (p)->OnEnd(r)
+#endif
+extern "C" { extern uint32_t verif_mutex_lock_calls; uint32_t verif_mutex_was_locked(void *m); }
+// ---- ghost state
+static PROC *g_proc;
+static uint32_t g_exported[NLOG]; static int g_nexported; static int g_batches;
+static int g_flush_calls, g_shutdown_calls; static int g_flush_after_exported;   // #exported when the exporter's ForceFlush was last called
+static bool g_size_ok = true, g_no_export_after_shutdown = true, g_export_overlap = false; static int g_in_exporter;
+static int g_produced;                         // records accepted by the queue so far (ids are 1, 2, 3, ... in production order)
+static uint64_t g_ticket_issued_at[4]; static uint64_t g_first_ticket; static int g_ntickets;   // records produced when ticket (g_first_ticket + i) was issued
+static bool g_ack_ok = true;                   // every acknowledged ticket covered what was produced before it was issued, and the exporter's ForceFlush ran after that
+static int produce_one(PROC *p) {              // one producer call; returns 1 if the record was accepted
+  size_t before = p->buffer_.size();
+  PRODUCE(p, std::unique_ptr<sdkx::Recordable>(new TokRec((uint32_t)(g_produced + 1))));
+  if (p->buffer_.size() == before + 1) { g_produced++; return 1; }
+  return 0;
+}
+static void issue_ticket(PROC *p) {             // what the beginning of a concurrent ForceFlush call does
+  uint64_t t = p->synchronization_data_->force_flush_pending_sequence.fetch_add(1) + 1;
+  if (g_ntickets == 0) g_first_ticket = t;
+  if (g_ntickets < 4) g_ticket_issued_at[g_ntickets] = (uint64_t)g_produced;
+  g_ntickets++;
+}
+static void check_acks(PROC *p) {               // called whenever the notified sequence may have moved
+  uint64_t n = p->synchronization_data_->force_flush_notified_sequence.load();
+  for (int i = 0; i < 4; i++) if (i < g_ntickets && g_first_ticket + i <= n) {
+    if ((uint64_t)g_nexported < g_ticket_issued_at[i] || g_flush_calls == 0 || (uint64_t)g_flush_after_exported < g_ticket_issued_at[i]) g_ack_ok = false;
+  }
+}
+// INTERFERE (concrete per query; a symbolic choice here makes every later queue index symbolic - measured: no verdict in 200 s):
+//  0 none; 1 a producer call during the first Export; 2 producer call + flush ticket during the first Export;
+//  3 producer call + flush ticket during the exporter's ForceFlush; 4 flush ticket during the first Export; 5 = 2 and 3 together
+static int g_export_calls_seen, g_flush_calls_seen;
+static void others_act(PROC *p, bool in_force_flush) {   // a concurrent producer / ForceFlush caller, while the worker is inside the exporter
+  if (!in_force_flush) {
+    g_export_calls_seen++;
+    if (g_export_calls_seen == 1) {
+      if (INTERFERE == 1 || INTERFERE == 2 || INTERFERE == 5) produce_one(p);
+      if (INTERFERE == 2 || INTERFERE == 4 || INTERFERE == 5) issue_ticket(p);
+    }
+  } else {
+    g_flush_calls_seen++;
+    if (g_flush_calls_seen == 1 && (INTERFERE == 3 || INTERFERE == 5)) { produce_one(p); issue_ticket(p); }
+  }
+}
+struct Exp : EXPBASE {
+  std::unique_ptr<sdkx::Recordable> MakeRecordable() noexcept override { return std::unique_ptr<sdkx::Recordable>(new TokRec(0)); }
+  sdk::common::ExportResult Export(const nostd::span<std::unique_ptr<sdkx::Recordable>> &recs) noexcept override {
+    if (g_in_exporter) g_export_overlap = true;
+    g_in_exporter++;
+    if (g_shutdown_calls) g_no_export_after_shutdown = false;
     g_batches++;
-    if (spans.size() < 1 || spans.size() > BMAX) g_size_ok = false;
-    for (size_t i = 0; i < spans.size(); i++) { if (g_nexported < 12) g_exported[g_nexported] = static_cast<TokRec *>(spans[i].get())->id; g_nexported++; spans[i].reset(); }
+    if (recs.size() < 1 || recs.size() > BMAX) g_size_ok = false;
+    for (size_t i = 0; i < recs.size(); i++) { if (g_nexported < NLOG) g_exported[g_nexported] = static_cast<TokRec *>(recs[i].get())->id; g_nexported++; recs[i].reset(); }
+    others_act(g_proc, false);
+    g_in_exporter--;
     return nondet_bool() ? sdk::common::ExportResult::kSuccess : sdk::common::ExportResult::kFailure;
   }
-  bool ForceFlush(std::chrono::microseconds) noexcept override { g_flush_calls++; g_flush_after_exported = g_nexported; return nondet_bool(); }
+  bool ForceFlush(std::chrono::microseconds) noexcept override { g_flush_calls++; g_flush_after_exported = g_nexported; others_act(g_proc, true); return nondet_bool(); }
   bool Shutdown(std::chrono::microseconds) noexcept override { g_shutdown_calls++; return nondet_bool(); }
 };
-static sdkt::BatchSpanProcessor *g_proc; static int g_worker_mode;   // what the simulated worker does when the caller blocks
+static int g_worker_mode;   // what the simulated worker does when the caller blocks
 extern "C" void verif_worker_step(uint32_t why) {
   if (!g_proc) return;
-  if (why == 2) { g_proc->DrainQueue(); return; }               // join: the worker sees is_shutdown, drains and exits
-  if (g_worker_mode == 1) g_proc->Export();                      // a worker export cycle happens while the caller waits
+  if (why == 2) { g_proc->DrainQueue(); check_acks(g_proc); return; }               // join: the worker sees is_shutdown, drains and exits
+  if (g_worker_mode == 1) { g_proc->Export(); check_acks(g_proc); }                  // a worker export cycle happens while the caller waits
 }
-static sdkt::BatchSpanProcessor *make_proc() {
-  sdkt::BatchSpanProcessorOptions o; o.max_queue_size = QMAX; o.max_export_batch_size = BMAX; o.schedule_delay_millis = std::chrono::milliseconds(5);
-  auto *p = new sdkt::BatchSpanProcessor(std::unique_ptr<sdkt::SpanExporter>(new Exp), o);   // never destroyed
+static PROC *make_proc() {
+  OPTS o; o.max_queue_size = QMAX; o.max_export_batch_size = BMAX; o.schedule_delay_millis = std::chrono::milliseconds(5);
+  auto *p = new PROC(std::unique_ptr<EXPBASE>(new Exp), o);   // never destroyed
   g_proc = p;
   return p;
 }
-static int produce(sdkt::BatchSpanProcessor *p, int first_id, int k) {   // k <= QMAX+1 items; returns how many were accepted (queue not full)
+static int produce(PROC *p, int k) {   // k <= QMAX+1 producer calls; returns how many were accepted
   int acc = 0;
-  for (int i = 0; i < QMAX + 1; i++) if (i < k) { size_t before = p->buffer_.size(); p->OnEnd(std::unique_ptr<sdkt::Recordable>(new TokRec(first_id + i))); if (p->buffer_.size() == before + 1) acc++; }
+  for (int i = 0; i < QMAX + 1; i++) if (i < k) acc += produce_one(p);
   return acc;
 }
-static bool fifo_exact(int from_id, int count) {   // exporter log equals from_id, from_id+1, ... exactly once each
+static bool fifo_exact(int count) {   // exporter log equals 1, 2, ..., count: every record exactly once, in production order
   if (g_nexported != count) return false;
-  for (int i = 0; i < 12; i++) if (i < count && g_exported[i] != (uint32_t)(from_id + i)) return false;
+  for (int i = 0; i < NLOG; i++) if (i < count && g_exported[i] != (uint32_t)(1 + i)) return false;
   return true;
 }
-// ---- Export() from a state in which ForceFlush may have been used earlier (tickets arbitrary)
-ENTRY h_export_cycle() {
-  auto *p = make_proc();
-  // ticket history class (concrete representative per query; the code only compares pending != 0 and pending > notified):
-  // 0 = ForceFlush never used, 1 = used earlier and completed, 2 = a flush is outstanding
+static bool fifo_prefix() {           // what has been exported so far is 1, 2, ... without gaps or repeats
+  for (int i = 0; i < NLOG; i++) if (i < g_nexported && g_exported[i] != (uint32_t)(1 + i)) return false;
+  return g_nexported <= g_produced;
+}
+// ---- Export() from a state in which ForceFlush may have been used earlier (ticket history class per query)
+//      0 = ForceFlush never used, 1 = used earlier and completed, 2 = a flush is outstanding
 #ifndef TICKETS
 #define TICKETS 1
 #endif
-  const uint64_t pending = TICKETS == 0 ? 0 : (TICKETS == 1 ? 7 : 9), notified = TICKETS == 0 ? 0 : 7;
-  p->synchronization_data_->force_flush_pending_sequence.store(pending);
-  p->synchronization_data_->force_flush_notified_sequence.store(notified);
+#ifndef INTERFERE
+#define INTERFERE 0
+#endif
+ENTRY h_export_cycle() {
+  auto *p = make_proc();
+  if (TICKETS >= 1) { p->synchronization_data_->force_flush_pending_sequence.store(7); p->synchronization_data_->force_flush_notified_sequence.store(7); }
   const int k = KITEMS;
-  int acc = produce(p, 1, k);
+  int acc = produce(p, k);
   VASSERT(acc == k, "nothing is dropped while the queue has room");
+  if (TICKETS == 2) issue_ticket(p);                       // a ForceFlush caller took a ticket after these records were produced
   p->Export();
+  check_acks(p);
   VASSERT(g_size_ok, "every batch is non-empty and holds at most max_export_batch_size records");
-  VASSERT(fifo_exact(1, k) && p->buffer_.empty(), "an export cycle delivers every queued record exactly once, in production order");
-  if (pending > notified) {
-    VASSERT(g_flush_calls >= 1 && g_flush_after_exported == k, "outstanding flush: exporter ForceFlush called after the last record was exported");
-    VASSERT(p->synchronization_data_->force_flush_notified_sequence.load() == pending, "outstanding flush ticket is published as completed only at the end");
-  } else {
-    VASSERT(g_flush_calls == 0 && p->synchronization_data_->force_flush_notified_sequence.load() == notified, "no outstanding flush: no exporter ForceFlush, tickets untouched");
-  }
+  VASSERT(!g_export_overlap, "Export is not entered while a previous Export is running");
+  VASSERT(fifo_prefix() && g_nexported >= k, "an export cycle delivers every record that was queued when it started exactly once, in production order");
+  VASSERT(g_nexported + (int)p->buffer_.size() == g_produced, "every accepted record is either exported or still queued");
+  VASSERT(g_ack_ok, "a flush ticket is acknowledged only after everything produced before it was exported and the exporter's ForceFlush ran");
+  if (TICKETS == 2) VASSERT(p->synchronization_data_->force_flush_notified_sequence.load() >= g_first_ticket, "an outstanding flush ticket is acknowledged by the export cycle");
+  else if (INTERFERE == 0) VASSERT(g_flush_calls == 0, "no outstanding flush: the exporter's ForceFlush is not called");
 }
-// ---- queue full: drop exactly the overflow
+// ---- queue full: drop exactly the overflow; producers take no lock the worker holds across Export
 ENTRY h_drop_only_when_full() {
   auto *p = make_proc();
-  int acc = produce(p, 1, QMAX + 1);
+  uint32_t locks0 = verif_mutex_lock_calls;
+  int acc = produce(p, QMAX + 1);
+  bool took_cv_m = verif_mutex_was_locked((void *)&p->synchronization_data_->cv_m) != 0;
+  VASSERT(!took_cv_m && verif_mutex_lock_calls == locks0, "producers never wait for the exporter: OnEnd/OnEmit takes no mutex (the worker holds cv_m across Export)");
+  VASSERT(g_batches == 0 && g_flush_calls == 0, "producers never call the exporter");
   VASSERT(acc == QMAX && p->buffer_.size() == QMAX, "a record is dropped only when the queue already holds max_queue_size records");
   p->Export();
-  VASSERT(fifo_exact(1, QMAX) && g_size_ok, "the accepted records are exported exactly once in order, in bounded batches");
+  VASSERT(fifo_exact(QMAX) && g_size_ok, "the accepted records are exported exactly once in order, in bounded batches");
 }
-// ---- ForceFlush: the caller blocks; the worker may or may not run an export cycle while it waits
+// ---- ForceFlush: the caller blocks; WMODE 1: the worker runs an export cycle while it waits, 0: the worker never runs
+//      TOCLASS 0: timeout 0 (= unlimited), 1: 1000 us, 2: microseconds::max
+#ifndef WMODE
+#define WMODE 1
+#endif
+#ifndef TOCLASS
+#define TOCLASS 1
+#endif
+extern "C" { extern uint64_t verif_clock_min_step; }
 ENTRY h_force_flush() {
   auto *p = make_proc();
   const int k = KITEMS;
-  produce(p, 1, k);
-  g_worker_mode = nondet_bool() ? 1 : 0;
-  uint64_t to = nondet_bool() ? 0 : (nondet_bool() ? 1000 : (uint64_t)std::chrono::microseconds::max().count());
-  bool r = p->ForceFlush(std::chrono::microseconds((int64_t)to));
+  produce(p, k);
+  g_worker_mode = WMODE;
+  if (WMODE == 0) verif_clock_min_step = 2000000;    // bounded progress: the steady clock advances at least 2 ms per reading, so a 1000 us budget runs out
+  const int64_t to = TOCLASS == 0 ? 0 : (TOCLASS == 1 ? 1000 : std::chrono::microseconds::max().count());
+  bool r = p->ForceFlush(std::chrono::microseconds(to));
+  check_acks(p);
   if (r) {
-    VASSERT(fifo_exact(1, k), "ForceFlush true: everything ended before the call was exported exactly once");
+    VASSERT(fifo_exact(k), "ForceFlush true: everything ended before the call was exported exactly once");
     VASSERT(g_flush_calls >= 1 && g_flush_after_exported == k, "ForceFlush true: the exporter's ForceFlush ran after those records");
   }
-  VASSERT(g_size_ok, "batches stay within bounds during ForceFlush");
-  VASSERT(g_worker_mode == 1 || !r, "ForceFlush cannot report success if the worker never ran");
+  VASSERT(g_size_ok && !g_export_overlap, "batches stay within bounds during ForceFlush");
+  VASSERT(WMODE == 1 || !r, "ForceFlush cannot report success if the worker never ran");
+  VASSERT(WMODE == 0 || r, "ForceFlush reports success once the worker has exported and acknowledged its ticket");
 }
 // ---- Shutdown: drains, shuts the exporter down once, later calls are inert
 ENTRY h_shutdown() {
   auto *p = make_proc();
   const int k = KITEMS;
-  produce(p, 1, k);
-  p->Shutdown(std::chrono::microseconds(nondet_bool() ? 0 : 1000));
-  VASSERT(fifo_exact(1, k) && g_size_ok, "Shutdown exports everything produced before it, once, in bounded batches");
-  VASSERT(g_shutdown_calls == 1, "Shutdown shuts the exporter down exactly once");
+  produce(p, k);
+  bool b = nondet_bool();
+  p->Shutdown(std::chrono::microseconds(b ? 0 : 1000));
+  VASSERT(fifo_exact(k) && g_size_ok, "Shutdown exports everything produced before it, once, in bounded batches");
+  VASSERT(g_shutdown_calls == 1 && g_no_export_after_shutdown, "Shutdown shuts the exporter down exactly once, after the last Export");
   int batches = g_batches, flushes = g_flush_calls;
-  p->OnEnd(std::unique_ptr<sdkt::Recordable>(new TokRec(99)));
+  PRODUCE(p, std::unique_ptr<sdkx::Recordable>(new TokRec(99)));
   bool ff = p->ForceFlush(std::chrono::microseconds(1000));
   p->Shutdown(std::chrono::microseconds(0));
   VASSERT(!ff, "ForceFlush after Shutdown reports false");
   VASSERT(g_batches == batches && g_flush_calls == flushes && g_shutdown_calls == 1 && g_nexported == k, "after Shutdown no exporter call is made by OnEnd / ForceFlush / Shutdown");
 }
-// ---- probes (development): growth of the program size step by step
-ENTRY h_p0() { auto *p = make_proc(); VASSERT(p->buffer_.size() == 0, "p0"); }
-ENTRY h_p1() { auto *p = make_proc(); p->OnEnd(std::unique_ptr<sdkt::Recordable>(new TokRec(1))); VASSERT(p->buffer_.size() == 1, "p1"); }
-ENTRY h_p2() { auto *p = make_proc(); p->OnEnd(std::unique_ptr<sdkt::Recordable>(new TokRec(1))); p->OnEnd(std::unique_ptr<sdkt::Recordable>(new TokRec(2))); VASSERT(p->buffer_.size() == 2, "p2"); }
-ENTRY h_p3() { auto *p = make_proc(); p->OnEnd(std::unique_ptr<sdkt::Recordable>(new TokRec(1))); p->Export(); VASSERT(p->buffer_.size() == 0 && g_nexported == 1, "p3"); }
